@@ -304,3 +304,15 @@ Theorem roundtrip_absolute_duration_deepcopy_partial : forall days seconds us ms
   exists d', dur_rebuild RDeep d = Ok d' /\ dur_public d' = dur_public d.
 Proof. exact (absdur_deep_exact_nonneg float_split_exact_on_D9_proved). Qed.
 Print Assumptions roundtrip_absolute_duration_deepcopy_partial.
+
+(* ---- THE MODEL IS THE CODE (FixedTimezone.__init__'s default name).  What pickle / copy are handed is DATA generated from /repo (Gen/Reduce.v); the method
+   BODIES this model still transcribes by hand are pinned by text in g60_pickle.py: FixedTimezone.__init__ (default_name), Interval.__new__ / __init__
+   (interval_new), DateTime.timezone / tz (pendulum_tz), Timezone.__new__ (forwards the key); Duration.__new__ is Model/Duration.v (C09 model_is_code_duration_new).
+   The first one is now translated on every run (Gen/FixedTzInit.v: FLOAT division offset / 60, int(), divmod, the f-string) and equals default_name (integer
+   arithmetic) for EVERY offset strictly between -24 h and +24 h (exhaustive kernel evaluation); outside that range default_name stays hand + pinned. *)
+From PV Require Import Gen.FixedTzInit Proofs.FixedTzInitFacts.
+
+Theorem model_is_code_fixed_timezone_default_name : forall off, -86400 < off < 86400 ->
+  gen_FixedTimezone_default_name off = Ok (default_name off).
+Proof. exact gen_default_name_eq. Qed.
+Print Assumptions model_is_code_fixed_timezone_default_name.
